@@ -251,6 +251,14 @@ for f, g in PAIRS:
         contract(C + a, P, args={arg: X}, requires=['%s > 0' % arg],
                  ensures=[('inverse:%s' % b, 'const.%s(result) == %s' % (b, arg)),
                           ('positive', 'result > 0')])
+# the helpers are proportional maps: the same holds for negative arguments (imaginary modes are passed as negative wavenumbers)
+XN = Real(-5000., -1.)
+for f, g in PAIRS:
+    for a, b in ((f, g), (g, f)):
+        arg = _argname(a)
+        contract(C + a, P, label='negative-argument', args={arg: XN}, requires=['%s < 0' % arg],
+                 ensures=[('inverse:%s' % b, 'const.%s(result) == %s' % (b, arg)),
+                          ('odd', 'result == -const.%s(-%s)' % (a, arg))])
 # consistency of the three-way conversions (going round a triangle)
 for a, b, c3 in (('energy', 'freq', 'temp'), ('energy', 'freq', 'wavenumber'),
                  ('energy', 'temp', 'wavenumber'), ('freq', 'temp', 'wavenumber')):
